@@ -12,12 +12,23 @@
 //! that result followed by `msg <hex of the rendered message>` for errors, and `<state>` is the
 //! observable state of the whole tree: `(n <name> <bin_name|-> <display_name|-> (<arg ids>) <subs>...)`.
 use crate::hex;
-use crate::modes::parse::{build_cmd, kind_name, show_matches, show_result, EnvGuard};
+use crate::modes::parse::{build_cmd_with, kind_name, show_matches, show_result, EnvGuard};
 use crate::sexp::Sx;
 use clap::{ArgMatches, Command};
 use std::ffi::OsString;
 use std::os::unix::ffi::OsStringExt;
 use std::panic::{catch_unwind, AssertUnwindSafe};
+
+/// `parse::build_cmd` plus the extension item `(x-flatten-help)` (Command::flatten_help: rendering only)
+fn build_cmd(items: &[Sx], env: &mut EnvGuard) -> Command {
+    build_cmd_with(items, env, &|a, _| a, &|c, its| {
+        if its.iter().any(|it| it.head() == "x-flatten-help") {
+            c.flatten_help(true)
+        } else {
+            c
+        }
+    })
+}
 
 fn os(x: &Sx) -> OsString {
     OsString::from_vec(x.bytes())
